@@ -95,13 +95,23 @@ func union(this, that map[string]struct{}) map[string]struct{} {
 
 func newPackage(program *loader.Program, pkgInfo *loader.PackageInfo, plugins []Plugin, autoname, dedup bool) (*pkg, error) {
 	fileInfos := newFileInfos(program, pkgInfo)
+	// The directory of the package is that of any of its files:
+	// a package that is left with nothing but a generated file still has its own directory.
 	fullpath := ""
-	if len(fileInfos) > 0 {
-		abs, err := filepath.Abs(fileInfos[0].fullpath)
+	for _, astFile := range pkgInfo.Files {
+		file := program.Fset.File(astFile.Pos())
+		if file == nil {
+			continue
+		}
+		abs, err := filepath.Abs(file.Name())
 		if err != nil {
 			return nil, err
 		}
 		fullpath = filepath.Dir(abs)
+		break
+	}
+	if fullpath == "" {
+		return nil, fmt.Errorf("the directory of package %s is unknown: it has no files", pkgInfo.Pkg.Path())
 	}
 	reserved := make(map[string]struct{})
 	for _, fileFuncs := range fileInfos {
